@@ -1,7 +1,7 @@
 #!/bin/sh
 # usage: tools/validate_seed.sh <ID> <k>   -- confirms a seeded defect in a scratch worktree of /repo HEAD:
 #   patch applies, crate builds, the 42 tests pass with it, the demonstration fails with it and passes without.
-id=$1; k=$2; src=/tmp/seed/$id.out
+id=$1; k=$2; src=${SEED_SRC_ROOT:-/tmp/seed}/$id.out
 wt=/tmp/wt_validate
 [ -d $wt ] || git -C /repo worktree add -q --detach $wt HEAD
 cd $wt && git checkout -q --detach $(git -C /repo rev-parse HEAD) && git checkout -q -- . && git clean -fdq -e target
